@@ -5,8 +5,10 @@ CONSTANTS
   Topics = {"A", "B"}
   Cap = 1
   MayStall = TRUE
+  MayStick = TRUE
   LockOrderAsCode = TRUE
   CloseChannels = TRUE
+  CloseForAllHandles = TRUE
 INVARIANTS Inv_ClosedMeansAllRoutersDone Inv_ShutdownExclusive Inv_RouterEndsOnlyWhenClosed
 PROPERTIES Live_ShutdownEnds Prop_JoinCoversEveryTopic
 CHECK_DEADLOCK FALSE
